@@ -408,9 +408,9 @@ var c18ListedGuards = []string{
 	// inside the loop over the advisory's affected entries
 	"in-range: param0.Affected",
 	// the package's ecosystem is known
-	"0:deps.dev/util/resolve.System != guidedremediation/internal/util.OSVToDepsDevEcosystem(extractor.Package.Ecosystem(param1))",
+	"0:deps.dev/util/resolve.System != guidedremediation/internal/util.OSVToDepsDevEcosystem(extractor.Ecosystem(param1))",
 	// same ecosystem, same name
-	"extractor.Package.Ecosystem(param1) == param0.Affected[ι].Package.Ecosystem",
+	"extractor.Ecosystem(param1) == param0.Affected[ι].Package.Ecosystem",
 	"param0.Affected[ι].Package.Name == param1.Name",
 }
 
@@ -508,7 +508,7 @@ var c18RangeSkips = []string{
 	"0:int != slices.BinarySearchFunc(slices.Clone(param0.Affected[ι].Ranges[ι].Events),param1.Version,*ssa.MakeClosure)#0 && builtin.len(slices.Clone(param0.Affected[ι].Ranges[ι].Events)[(slices.BinarySearchFunc(slices.Clone(….Affected[ι].Ranges[ι].Events),param1.Version,*ssa.MakeClosure)#0-1:int)].Introduced) != 0",
 	"builtin.len(slices.Clone(param0.Affected[ι].Ranges[ι].Events)[slices.BinarySearchFunc(slices.Clone(param0.Affected[ι].Ranges[ι].Events),param1.Version,*ssa.MakeClosure)#0].Introduced) != 0",
 	"builtin.len(slices.Clone(param0.Affected[ι].Ranges[ι].Events)[slices.BinarySearchFunc(slices.Clone(param0.Affected[ι].Ranges[ι].Events),param1.Version,*ssa.MakeClosure)#0].LastAffected) != 0",
-	"extractor.Package.Ecosystem(param1) != param0.Affected[ι].Package.Ecosystem",
+	"extractor.Ecosystem(param1) != param0.Affected[ι].Package.Ecosystem",
 	"param0.Affected[ι].Package.Name != param1.Name",
 	"range-end: param0.Affected",
 	"range-end: param0.Affected[ι].Ranges",
